@@ -138,8 +138,17 @@ theorem map_kidsDone_single (f t0 last : Nat) (kids : Calls) (h1 : t0 ≤ last) 
     (o : Option Fs) :
     o.map (Fs.kidsDone (.cons (.node f t0 last kids) .nil)) = o.map (Fs.addChild (last - t0)) := by
   cases o with
-  | none => rfl
+  | none => simp only [Option.map_none]
   | some fs => simp only [Option.map_some, kidsDone_single f t0 last kids h1 h2]
+
+theorem map_addr_kidsDone (o : Option Fs) (cs : Calls) :
+    (o.map (Fs.kidsDone cs)).map (·.addr) = o.map (·.addr) := by
+  cases o with
+  | none => simp only [Option.map_none]
+  | some fs => simp only [Option.map_some, Fs.kidsDone]
+
+/-- an open frame: function, entry time, `child_time` so far -/
+def frame (f t0 c : Nat) : Fs := { addr := f, total := t0, child := c, valid := true }
 
 /-- running the records of the open calls and then `add_remaining_fstack` over their slots gives
     the updates of the same calls closed at `last` -/
@@ -196,7 +205,7 @@ theorem run_open (last : Nat) : ∀ (spine : Open) (t : Task) (n d : Nat), t.sc 
       intro k hk'
       rw [ihP.below k hk']
       split
-      · cases tE.stk[k]? <;> rfl
+      · exact map_addr_kidsDone _ _
       · rfl
     -- the deeper open calls
     obtain ⟨oU, oS, oL, oB⟩ := run_open last rest rk.1 (n + 1) (d + 1) ihP.sc ihP.lost (Or.inl hKf)
@@ -206,12 +215,11 @@ theorem run_open (last : Nat) : ∀ (spine : Open) (t : Task) (n d : Nat), t.sc 
     have hrun : runT t (evOpen d ((f, t0, kids) :: rest)) = (ro.1, rk.2 ++ ro.2) := by
       simp only [evOpen, runT, hE, runT_append, hk, ho, List.nil_append]
     -- the frame of `f`
-    have hQslot : q.1[n]? = some { addr := f, total := t0,
-        child := childTime 0 (capp kids (closeAt last rest)), valid := true } := by
+    have hQslot : q.1[n]? = some (frame f t0 (childTime 0 (capp kids (closeAt last rest)))) := by
       have := oB n (Nat.lt_succ_self n)
       simp only [if_true] at this
       rw [this, hKslot]
-      simp only [Option.map_some, Fs.kidsDone, childTime_capp]
+      simp only [Option.map_some, Fs.kidsDone, childTime_capp, frame]
     have hct : childTime 0 (capp kids (closeAt last rest)) = durSum (capp kids (closeAt last rest)) := by
       rw [childTime_eq _ 0 hw4 (by omega)]; omega
     have hQbelow : ∀ k, k < n → q.1[k]? = t.stk[k]? := by
@@ -221,7 +229,8 @@ theorem run_open (last : Nat) : ∀ (spine : Open) (t : Task) (n d : Nat), t.sc 
       rw [this]; simp only [Nat.add_right_cancel_iff, hne, if_false]; exact hKbelow k hk'
     have hsplit := remFrom_split last rest.length 1 n ro.1.stk
     have hlen1 : ((f, t0, kids) :: rest).length = 1 + rest.length := by simp; omega
-    have hone := remFrom_one last n q.1 _ hQslot hw1 (by simp only [hct]; exact hw3)
+    have hone := remFrom_one last n q.1 _ hQslot hw1 (by simp only [frame, hct]; exact hw3)
+    simp only [frame] at hone
     rw [hrun, hlen1, hsplit, hq, hone]
     refine ⟨?_, ?_, ?_, ?_⟩
     · have hc : ctxOf (remStk q.1 n (last - t0)
@@ -234,11 +243,13 @@ theorem run_open (last : Nat) : ∀ (spine : Open) (t : Task) (n d : Nat), t.sc 
         · exact map_addr_addChild _ _
         · rfl
       have hcl : ¬ (durSum (capp kids (closeAt last rest)) > last - t0) := by omega
-      simp only [closeAt, updsL, upds, List.append_nil, updsL_capp, ihU, hctx, isRec_eq, hc, hct,
+      simp only [frame, hct] at hc
+      rw [hKctx] at oU
+      simp only [closeAt, updsL, upds, List.append_nil, updsL_capp, ihU, hctx, isRec_eq, hct, hc,
         sub64_eq _ _ hw1 hw2, hcl, if_false, List.append_assoc]
-      rw [← oU, hKctx]
+      rw [← oU]
       simp only [List.append_assoc]
-    · rw [oS]; simp only [List.length_cons]; omega
+    · rw [oS]; omega
     · rw [remStk_length, oL, ihP.len, hElen]
     · intro k hk'
       rw [remStk_below _ _ _ _ _ hk', hQbelow k hk']
